@@ -1119,7 +1119,46 @@ def fam_fixed(case):
         _pp_check(acc, "cross_correlation", pp, False, C, tau_max,
                   lambda lag_mode: pp.cross_correlation(
                       tau_max=tau_max, lag_mode=lag_mode), False)
+    _time_surrogates(acc, data)
     return acc.result()
+
+
+def _time_surrogates(acc, data):
+    """time_surrogate_for_cc / _for_mi draw `sample_range` time points
+    jointly for all series and lags.  With sample_range >= the number of
+    admissible points the draw is a permutation of ALL of them, and the
+    statistic - which does not depend on the order of the samples - must be
+    the one the full-window method of the same class reports, whatever the
+    random permutation is."""
+    T, N = data.shape
+    pp = _PP(data, False)
+    for tau_max in (0, 1, 2):
+        for lag_mode in ("all", "sum", "max"):
+            want = _call(pp.cross_correlation, tau_max=tau_max,
+                         lag_mode=lag_mode)
+            got = _call(pp.time_surrogate_for_cc,
+                        sample_range=T - 2 * tau_max, tau_max=tau_max,
+                        lag_mode=lag_mode)
+            acc.ev += 2
+            if want[0] != got[0] or (want[0] == "ok" and not _same_nested(
+                    got[1], want[1])):
+                acc.v("CouplingAnalysisPurePython.time_surrogate_for_cc:"
+                      "full-sample!=cross_correlation:%s" % lag_mode,
+                      "tau_max=%d, all %d admissible time points drawn" % (
+                          tau_max, T - 2 * tau_max), got[1], want[1])
+        for bins in (2, 4):
+            want = _call(pp.mutual_information, bins=bins, tau_max=tau_max,
+                         lag_mode="all")
+            got = _call(pp.time_surrogate_for_mi,
+                        sample_range=T - 2 * tau_max, bins=bins,
+                        tau_max=tau_max, lag_mode="all")
+            acc.ev += 2
+            if want[0] != got[0] or (want[0] == "ok" and not _same_nested(
+                    got[1], want[1])):
+                acc.v("CouplingAnalysisPurePython.time_surrogate_for_mi:"
+                      "full-sample!=mutual_information",
+                      "tau_max=%d bins=%d, all admissible time points drawn"
+                      % (tau_max, bins), got[1], want[1])
 
 
 # ---------------------------------------------------------------------------
